@@ -157,7 +157,8 @@ def build(targets=None, repo=None, quiet=True):
         lib = os.path.join(bd, "libnaken_san.a")
         for prog in ("naken_asm", "naken_util"):
             exe = os.path.join(bd, prog + "_san")
-            if n or not os.path.exists(exe):
+            mobj = os.path.join(bd, "san", "main", prog + ".o")
+            if n or not os.path.exists(exe) or os.path.getmtime(exe) < max(os.path.getmtime(lib), os.path.getmtime(mobj)):
                 run("%s %s %s -o %s %s %s" % (CXX, BASE, SAN, exe, os.path.join(bd, "san", "main", prog + ".o"), lib))
         # harness binaries
         for name in sorted(want):
@@ -174,8 +175,11 @@ def build(targets=None, repo=None, quiet=True):
                 jobs.append((src, obj, flags, sha(read(src), hh, flags)))
             m = compile_objs(jobs)
             exe = os.path.join(bd, name)
-            if n or m or not os.path.exists(exe):
-                mains = " ".join(os.path.join(bd, v, "main", p + "_fn.o") for p in ("naken_asm", "naken_util"))
+            libv = os.path.join(bd, "libnaken_%s.a" % v)
+            main_objs = [os.path.join(bd, v, "main", p + "_fn.o") for p in ("naken_asm", "naken_util")]
+            newest = max(os.path.getmtime(x) for x in [libv] + main_objs + [j[1] for j in jobs])
+            if n or m or not os.path.exists(exe) or os.path.getmtime(exe) < newest:
+                mains = " ".join(main_objs)
                 run("%s %s %s -o %s %s %s %s %s" % (
                     CXX, BASE, SAN, exe, " ".join(j[1] for j in jobs), mains,
                     os.path.join(bd, "libnaken_%s.a" % v), lflags))
